@@ -1415,6 +1415,21 @@ def call_ext(interp, dotted: str, args: List[V], kwargs: Dict[str, V], node, cc)
             r = call_method(interp, args[0], "ravel", [], {}, node, None)
             return r if r is not None else Term("ravel", [args[0]])
         return args[0]
+    if d in ("numpy.multiply.outer", "numpy.outer") and len(args) == 2 and not kwargs:
+        a_, b_ = args
+        ga = a_ if isinstance(a_, Grid) else to_grid(interp, a_)
+        gb = b_ if isinstance(b_, Grid) else to_grid(interp, b_)
+        if isinstance(ga, Grid) and isinstance(gb, Grid) and ga.ndim == 1 and gb.ndim == 1 and len(ga.dims[0]) == 1 and len(gb.dims[0]) == 1:
+            # outer product of two one-dimensional arrays: element [i, j] = a[i] * b[j]
+            ia, ea = ga.dims[0][0]
+            ib, eb = gb.dims[0][0]
+            if ia == ib:
+                nb_ = interp.fresh_idx("o")
+                gb = Grid([[(nb_, eb)]], subst(gb.elem, {ib: Poly.atom(nb_)}))
+                ib = nb_
+            prod = interp.binop(ast.Mult(), ga.elem, gb.elem)
+            if prod is not None and not isinstance(prod, Top):
+                return Grid([[(ia, ea)], [(ib, eb)]], prod)
     if d == "numpy.cumsum" and len(args) == 1 and not kwargs:
         x = args[0]
         if isinstance(x, ObjV) and x.ext == "ndarray":
